@@ -55,8 +55,8 @@ def known(ctx, finding):
 
 def plan(tier, seed):
     q = tier == "quick"
-    n = 12 if q else 32
-    specs = [{"kind": "exh", "i": i, "n": n, "max_obj": 3 if q else 4, "max_sp": 3, "nrand": 30 if q else 450} for i in range(n)]
+    n = 16 if q else 32
+    specs = [{"kind": "exh", "i": i, "n": n, "max_obj": 3 if q else 4, "max_sp": 3, "nrand": 110 if q else 450} for i in range(n)]
     specs.append({"kind": "fixtures"})
     return specs
 
